@@ -35,7 +35,7 @@ DEFECTS = [("MC_DeltaBuffers_defect.cfg", "node capacity 5 + 2 * tokens"),
            ("MC_DeltaBuffers_defect_unreachable.cfg", "consume(Comma) / consume(Colon) without expectation text")]
 # family -> number of random inputs
 RANDOM = {
-    "quick": {"bytes": 1500, "soup": 700, "badlex": 500, "prog": 900, "deep": 144, "mut": 1500, "corpus": 0},
+    "quick": {"bytes": 3000, "soup": 1500, "badlex": 1000, "prog": 2400, "deep": 216, "mut": 3000, "corpus": 0},
     "thorough": {"bytes": 30000, "soup": 10000, "badlex": 6000, "prog": 12000, "deep": 720, "mut": 40000, "corpus": 0},
 }
 EVMAX = 300           # runs with more hook events are recorded with the buffer-protocol events only
@@ -265,14 +265,14 @@ def run(rep, tier, seed, selftest):
     strict_cfg = "Trace_DeltaBuffers_strict_pinned.cfg" if pinned else "Trace_DeltaBuffers_strict.cfg"
     log("[probe] node capacity of the code under test: %s -> algorithm model constants of the %s tree" %
         ("%d for %d tokens" % (nc[0]["cap"], nc[0]["toks"]) if nc else "?", "pinned" if pinned else "fixed"))
-    r = common.tlc("MC_DeltaBuffers", emit_cfg, workers=8, timeout=3000, heap="12g", tag="C15-emit")
+    r = common.tlc("MC_DeltaBuffers", emit_cfg, workers=8, timeout=3000, heap="12g", tag="C15-emit", keep_output=False)
     log("[tlc] MC_DeltaBuffers/%s: %d states, %d derivations emitted, %.1fs, %s" %
         (emit_cfg, r.distinct, len(r.cases), r.wall, "protocol invariants hold" if r.ok else "INVARIANT %s VIOLATED" % r.violated))
     if not r.ok:
         rep.note_drift("emission model violates %s" % r.violated)
     tlc_states += r.distinct
     derivs = r.cases
-    rs = common.tlc("DeltaSeq", SEQ[tier], workers=4, timeout=3000, heap="8g", tag="C15-seq")
+    rs = common.tlc("DeltaSeq", SEQ[tier], workers=4, timeout=3000, heap="8g", tag="C15-seq", keep_output=False)
     ctxs = next((p for t, p in rs.notes if t == "CTX"), None)
     if not ctxs or not rs.cases:
         raise common.ToolError("DeltaSeq emitted no sequences / contexts")
@@ -391,8 +391,10 @@ def run(rep, tier, seed, selftest):
     for kind, desc, o, msg in problems:
         rep.violation(kind, case_key(desc), {"case": desc, "observed": {k: v for k, v in o.items() if k != "ev"}, "message": msg,
                                              "how": "bin/check C15 --replay <this file>"})
-    if skipped and not rep.violations:
-        raise common.ToolError("%d cases were skipped because workers kept dying" % skipped)
+    if skipped:
+        log("[run] %d cases were skipped because workers kept hanging or dying" % skipped)
+        if not rep.violations:
+            raise common.ToolError("%d cases were skipped because workers kept hanging or dying" % skipped)
     # ---- 5. impl -> spec: the buffer protocol of every recorded run, validated by TLC ------------------
     sample_idx = sorted(sample)
     if sample_idx:
